@@ -1,6 +1,8 @@
 import LoraVerif.Props.C07
 import LoraVerif.Props.TieA.C07
 import LoraVerif.Props.TieA.MacTopC
+import LoraVerif.Props.TieA.MacTopRx
+import LoraVerif.Props.TieA.MacTopOtaa
 /-!
 # C07 — the module `./check C07` builds: the property theorems (`Props/C07.lean`) together with the
 tie-A theorem that the generated `Session::handle_rx` is the model function they are about
